@@ -125,6 +125,19 @@ Theorem C19_gen_write_byte : forall rup maxalloc nil d sp o l c,
 Proof. exact GenBufWP.gen_buf_write_byte. Qed.
 Print Assumptions C19_gen_write_byte.
 
+(* ReadFrom(r): the reader is a script of answers (bytes with nil / io.EOF / another error, or a negative count);
+   r.Read is handed s.buf[len:cap] and what it delivers lands in the array of s.buf.  For EVERY script: the rounds
+   (grow(MinRead), the cut back, the window, the count added, when it stops), the total, the error handed on (EOF
+   becomes nil), the panics (errNegativeRead, ErrTooLarge), and the bytes, offset, capacity and lastRead afterwards
+   are those of the model's c_readfrom.  The loop of the source is run with fuel length(script)+1, which the
+   theorem shows to suffice. *)
+Theorem C19_gen_read_from : forall rup maxalloc nil (d sp : bytes) o l script,
+  (forall c, c <= rup c) -> 0 <= o <= Z.of_nat (length d) ->
+  wview (bview_rf nil (Buffers.buf_read_from (d, sp) o l (fun _ => nil) (grow_slice_oracle rup maxalloc) tt script))
+  = wview (cstep rup maxalloc (abs_pc nil ((d, sp), o, l)) (OReadFrom script)).
+Proof. exact GenBufWP.gen_buf_read_from. Qed.
+Print Assumptions C19_gen_read_from.
+
 (* For EVERY operation list (any arguments: sizes zero, negative, beyond the
    contents; any runes; any reader/writer scripts), from NewPrintCtx(b) for any b,
    capacity and nil-ness: same results, errors, panics, String() and Len() at
